@@ -70,6 +70,7 @@ NONE = mk(OPTION, 'None')
 LEN = {}
 _LENS = {}
 LEN_CONFLICTS = []
+LEN_LOG = None      # when a list: every (term, n) learned is appended (so that cached summaries can replay it)
 
 
 def use_suite(name):
@@ -85,6 +86,8 @@ def note_len(t, n):
     if t[0] == 'app' and t[1] in ('Slice', 'SliceMut'):
         return      # the length of a slice is structural (or unknown); never learn it from a destination type
     old = LEN.get(t)
+    if LEN_LOG is not None:
+        LEN_LOG.append((t, n))
     if old is None:
         LEN[t] = n
     elif old != n:
